@@ -267,10 +267,12 @@ def build(spec, overrides=None, only_subgraph=None, with_signatures=True):
         x.name = name
         x.tensorIndex = idx
         return x
-      sd.inputs = [tm(arg_name(sg, k, True), t)
-                   for k, t in enumerate(sg['inputs'])]
-      sd.outputs = [tm(arg_name(sg, k, False), t)
-                    for k, t in enumerate(sg['outputs'])]
+      # the converter may list signature entries in another order (sorted by
+      # name) than the subgraph inputs/outputs
+      ip = sg.get('sig_in_perm') or list(range(len(sg['inputs'])))
+      op_ = sg.get('sig_out_perm') or list(range(len(sg['outputs'])))
+      sd.inputs = [tm(arg_name(sg, k, True), sg['inputs'][k]) for k in ip]
+      sd.outputs = [tm(arg_name(sg, k, False), sg['outputs'][k]) for k in op_]
       m.signatureDefs.append(sd)
 
   if spec.get('dedup'):
@@ -838,6 +840,9 @@ def model_specs(draw, **kw):
         'tensors': g.tensors, 'nodes': g.nodes, 'order': order,
         'inputs': used_inputs if used_inputs else g.inputs[:1],
         'outputs': outs}
+    if draw(st.integers(0, 2)) == 0:
+      g.final['sig_out_perm'] = list(draw(st.permutations(list(range(len(outs))))))
+      g.final['sig_in_perm'] = list(draw(st.permutations(list(range(len(g.final['inputs']))))))
   spec = {'subgraphs': [g.final for g in sgs], 'dedup': bool(cfg['dedup'] and draw(st.booleans()))}
   return _clean(spec)
 
